@@ -47,8 +47,11 @@ func run(s *search.Search, root *strace.Root, noCounters bool, opt search.Option
 	res := strace.Result{Score: sc, Move: mv, Ponder: pm}
 	res.Lines = strace.SplitLines(rec.String())
 	res.Infos, res.Bad = strace.ParseInfos(res.Lines)
-	if n := len(res.Infos); n > 0 {
-		res.Nodes = res.Infos[n-1].Nodes
+	for n := len(res.Infos) - 1; n >= 0; n-- {
+		if res.Infos[n].HasNodes {
+			res.Nodes = res.Infos[n].Nodes
+			break
+		}
 	}
 	return res
 }
@@ -153,9 +156,14 @@ func game(r *ev.Run, wk int, w *witness, verbose bool) (ok bool) {
 			return false
 		}
 		sb := stripped(&rb)
-		// the replay may add one trailing abort line
-		if len(sb) == len(sa)+1 && rb.Infos[len(rb.Infos)-1].Abort {
+		// the replay runs into its budget in the iteration after the last completed one: it may add
+		// trailing lines that report no completed iteration (the abort line, currmove lines)
+		trimmed := false
+		for len(sb) > len(sa) && !rb.Infos[len(sb)-1].HasScore {
 			sb = sb[:len(sb)-1]
+			trimmed = true
+		}
+		if trimmed {
 			r.Count("replays_with_trailing_abort_line", 1)
 		}
 		if strings.Join(sa, "\n") != strings.Join(sb, "\n") {
